@@ -18,6 +18,7 @@ pub fn kinds_for(prop: &str) -> Vec<&'static str> {
         "C05" => vec!["guard", "stale-write", "garbage", "corrupt-drop", "corrupt-clone", "len>cap", "lifecycle", "crash"],
         "C11" => vec!["model", "garbage", "capacity", "stack-alloc", "clone-count"],
         "C18" => vec!["alloc-shape", "alloc-layout", "alloc-invalid", "alloc-leak"],
+        "C06" => vec!["double-drop", "corrupt-drop", "corrupt-clone", "clone-of-dead", "dup", "dead-visible", "garbage", "model", "guard", "stale-write", "len>cap", "crash", "meta", "view"],
         "C07" => vec!["forget-prefix", "model", "garbage", "dup", "dead-visible", "double-drop", "corrupt-drop", "iter"],
         "C13" => vec!["handle", "model", "garbage", "view"],
         "C17" => vec!["rawparts", "model", "garbage", "leak", "double-drop", "alloc-leak", "alloc-shape", "dup"],
@@ -110,6 +111,16 @@ pub fn run(ctx: &mut Ctx) {
             fam::exhaustive(ctx, "capacity", &cfgs, l, false, &fam::cap_ops);
             fam::exhaustive(ctx, "clone", &cfgs, 3, false, &fam::clone_ops);
             fam::histories(ctx, "mixed-hist", &cfgs, &hist(thorough, true, true, true, true));
+        }
+        "C06" => {
+            use hvcore::rigapi::MemKind;
+            cfgs.retain(|c| c.elem.tracked && (matches!(c.mem, MemKind::Guard | MemKind::Heap) || c.core));
+            let lf = if thorough { 5 } else { 3 };
+            fam::fault_enum(ctx, "fault/elem", &cfgs, lf, &fam::elem_seqs, 1);
+            fam::fault_enum(ctx, "fault/range", &cfgs, lf, &fam::range_ops, if thorough { 1 } else { 3 });
+            fam::fault_enum(ctx, "fault/clone", &cfgs, lf, &fam::clone_ops, if thorough { 1 } else { 5 });
+            fam::fault_enum(ctx, "fault/lazy", &cfgs, 2, &fam::lazy_ops, if thorough { 1 } else { 7 });
+            fam::lying_enum(ctx, "lying", &cfgs, lf);
         }
         "C07" => {
             fam::exhaustive(ctx, "forget", &cfgs, l, false, &fam::forget_ops);
